@@ -1,5 +1,6 @@
 SPECIFICATION TraceSpec
 CONSTANTS
  QCap = 512
+ PktScale = 256
 POSTCONDITION TraceAccepted
 CHECK_DEADLOCK FALSE
